@@ -63,3 +63,282 @@ package operationparser
 //@   let j, jerr := jwsutil.ParseJWS(compactJWS)
 //@   ensures [iff] (err == nil) == (compactJWS != "" && jerr == nil && headersOK(j.ProtectedHeaders, p.SignatureAlgorithms))
 //@   ensures [value] err == nil ==> sig == j && sig != nil
+
+// ---------------------------------------------------------------------------
+// well-formed parser object (what New establishes): non-nil injected validators
+//@ spec func wfParser(p *Parser) bool = p != nil && p.anchorOriginValidator != nil && p.anchorTimeValidator != nil
+
+//@ spec func effUntil(from int64, until int64, delta uint64) int64 = ite(from != 0 && until == 0, from + int64(delta), until)
+
+// ---------------------------------------------------------------------------
+// delta and suffix data
+
+//@ func (p *Parser) isPatchEnabled(action) (r)
+//@   pure
+//@   requires p != nil
+//@   ensures [iff] r == (exists i int :: 0 <= i && i < len(p.Patches) && patch.Action(p.Patches[i]) == action)
+//@   loop 0 invariant forall j int :: 0 <= j && j < $k ==> patch.Action(p.Patches[j]) != action
+
+//@ func (p *Parser) validateDeltaSize(delta) (err)
+//@   pure
+//@   requires p != nil
+//@   let cd, cerr := canonicalizer.MarshalCanonical(delta)
+//@   ensures [iff] (err == nil) == (cerr == nil && len(cd) <= int(p.MaxDeltaSize))
+
+//@ spec func patchOK(p *Parser, pt patch.Patch) bool =
+//@     pt.GetAction().err == nil && p.isPatchEnabled(pt.GetAction().action) && patchvalidator.Validate(pt) == nil
+//
+//@ func (p *Parser) ValidateDelta(delta) (err)
+//@   pure
+//@   requires p != nil
+//@   ensures [iff] (err == nil) == (delta != nil && len(delta.Patches) > 0 &&
+//@        (forall i int :: 0 <= i && i < len(delta.Patches) ==> patchOK(p, delta.Patches[i])) &&
+//@        hashOK(p, delta.UpdateCommitment) && p.validateDeltaSize(delta) == nil)
+//@   ensures [nonnil] err == nil ==> delta != nil
+//@   loop 0 invariant forall j int :: 0 <= j && j < $k ==> patchOK(p, delta.Patches[j])
+
+//@ func (p *Parser) ValidateSuffixData(suffixData) (err)
+//@   pure
+//@   requires p != nil
+//@   ensures [iff] (err == nil) == (suffixData != nil && hashOK(p, suffixData.RecoveryCommitment) && hashOK(p, suffixData.DeltaHash))
+//@   ensures [nonnil] err == nil ==> suffixData != nil
+
+// ---------------------------------------------------------------------------
+// signed data
+
+//@ func (p *Parser) ParseSignedDataForUpdate(compactJWS) (sd, err)
+//@   pure
+//@   requires p != nil
+//@   modifies nothing
+//@   let j, jerr := p.parseSignedData(compactJWS)
+//@   let dec := jsonDecode(string(j.Payload), model.UpdateSignedDataModel)
+//@   let derr := jsonDecodeErr(string(j.Payload), model.UpdateSignedDataModel)
+//@   letpost keyOK := p.validateSigningKey(dec.UpdateKey) == nil
+//@   letpost dhOK := hashOK(p, dec.DeltaHash)
+//@   ensures [iff] (err == nil) == (jerr == nil && derr == nil && keyOK && dhOK)
+//@   ensures [value] err == nil ==> sd != nil && deref(sd) == dec
+//@   ensures [nonnil] err == nil ==> sd != nil
+
+//@ func (p *Parser) ParseSignedDataForRecover(compactJWS) (sd, err)
+//@   pure
+//@   requires p != nil
+//@   modifies nothing
+//@   let j, jerr := p.parseSignedData(compactJWS)
+//@   let dec := jsonDecode(string(j.Payload), model.RecoverSignedDataModel)
+//@   let derr := jsonDecodeErr(string(j.Payload), model.RecoverSignedDataModel)
+//@   letpost keyOK := p.validateSigningKey(dec.RecoveryKey) == nil
+//@   letpost hashesOK := hashOK(p, dec.RecoveryCommitment) && hashOK(p, dec.DeltaHash)
+//@   letpost commitOK := p.validateCommitment(dec.RecoveryKey, dec.RecoveryCommitment) == nil
+//@   ensures [iff] (err == nil) == (jerr == nil && derr == nil && keyOK && hashesOK && commitOK)
+//@   ensures [value] err == nil ==> sd != nil && deref(sd) == dec
+//@   ensures [nonnil] err == nil ==> sd != nil
+
+//@ func (p *Parser) ParseSignedDataForDeactivate(compactJWS) (sd, err)
+//@   pure
+//@   requires p != nil
+//@   modifies nothing
+//@   let j, jerr := p.parseSignedData(compactJWS)
+//@   let dec := jsonDecode(string(j.Payload), model.DeactivateSignedDataModel)
+//@   let derr := jsonDecodeErr(string(j.Payload), model.DeactivateSignedDataModel)
+//@   letpost keyOK := p.validateSigningKey(dec.RecoveryKey) == nil
+//@   ensures [iff] (err == nil) == (jerr == nil && derr == nil && keyOK)
+//@   ensures [value] err == nil ==> sd != nil && deref(sd) == dec
+//@   ensures [nonnil] err == nil ==> sd != nil
+
+// ---------------------------------------------------------------------------
+// requests
+
+//@ func (p *Parser) parseCreateRequest(payload) (ret, err)
+//@   pure
+//@   modifies nothing
+//@   ensures [iff] (err == nil) == (jsonDecodeErr(string(payload), model.CreateRequest) == nil)
+//@   ensures [value] err == nil ==> ret != nil && deref(ret) == jsonDecode(string(payload), model.CreateRequest)
+
+//@ func (p *Parser) parseUpdateRequest(payload) (ret, err)
+//@   pure
+//@   requires p != nil
+//@   modifies nothing
+//@   let dec := jsonDecode(string(payload), model.UpdateRequest)
+//@   letpost rvOK := hashOK(p, dec.RevealValue)
+//@   ensures [iff] (err == nil) == (jsonDecodeErr(string(payload), model.UpdateRequest) == nil && dec.DidSuffix != "" && dec.SignedData != "" && rvOK)
+//@   ensures [value] err == nil ==> ret != nil && deref(ret) == dec
+
+//@ func (p *Parser) parseRecoverRequest(payload) (ret, err)
+//@   pure
+//@   requires p != nil
+//@   modifies nothing
+//@   let dec := jsonDecode(string(payload), model.RecoverRequest)
+//@   letpost rvOK := hashOK(p, dec.RevealValue)
+//@   ensures [iff] (err == nil) == (jsonDecodeErr(string(payload), model.RecoverRequest) == nil && dec.DidSuffix != "" && dec.SignedData != "" && rvOK)
+//@   ensures [value] err == nil ==> ret != nil && deref(ret) == dec
+
+//@ func (p *Parser) parseDeactivateRequest(payload) (ret, err)
+//@   pure
+//@   requires p != nil
+//@   modifies nothing
+//@   let dec := jsonDecode(string(payload), model.DeactivateRequest)
+//@   letpost rvOK := hashOK(p, dec.RevealValue)
+//@   ensures [iff] (err == nil) == (jsonDecodeErr(string(payload), model.DeactivateRequest) == nil && dec.DidSuffix != "" && dec.SignedData != "" && rvOK)
+//@   ensures [value] err == nil ==> ret != nil && deref(ret) == dec
+
+// ---------------------------------------------------------------------------
+// operations (C07: accepted iff the rules hold; C02: reveal value binds the signing key;
+// C03: suffix and delta binding; C09: the window handed to the time validator)
+
+//@ func (p *Parser) ParseCreateOperation(request, batch) (op, err)
+//@   pure
+//@   requires wfParser(p)
+//@   modifies nothing
+//@   let req := jsonDecode(string(request), model.CreateRequest)
+//@   let rerr := jsonDecodeErr(string(request), model.CreateRequest)
+//@   letpost sdOK := p.ValidateSuffixData(req.SuffixData) == nil
+//@   letpost liveOK := p.anchorOriginValidator.Validate(req.SuffixData.AnchorOrigin) == nil && p.ValidateDelta(req.Delta) == nil &&
+//@        hashing.IsValidModelMultihash(req.Delta, req.SuffixData.DeltaHash) == nil && req.Delta.UpdateCommitment != req.SuffixData.RecoveryCommitment
+//@   letpost suffix, serr := model.GetUniqueSuffix(req.SuffixData, p.MultihashAlgorithms)
+//@   ensures [iff] (err == nil) == (rerr == nil && sdOK && (batch || liveOK) && serr == nil)
+//@   ensures [result] err == nil ==> op != nil && op.Type == operation.TypeCreate && op.UniqueSuffix == suffix && op.Delta == req.Delta &&
+//@        op.SuffixData == req.SuffixData && op.AnchorOrigin == req.SuffixData.AnchorOrigin && op.OperationRequest == request
+//@   ensures [delta-bound] err == nil && !batch ==> hashing.IsValidModelMultihash(req.Delta, req.SuffixData.DeltaHash) == nil
+//@   ensures [nonnil] err == nil ==> op != nil && op.SuffixData != nil
+//@   ensures [fresh] err == nil ==> fresh(op)
+
+//@ func (p *Parser) ParseUpdateOperation(request, batch) (op, err)
+//@   pure
+//@   requires wfParser(p)
+//@   modifies nothing
+//@   let req := jsonDecode(string(request), model.UpdateRequest)
+//@   let rerr := jsonDecodeErr(string(request), model.UpdateRequest)
+//@   letpost reqOK := rerr == nil && req.DidSuffix != "" && req.SignedData != "" && hashOK(p, req.RevealValue)
+//@   letpost sd, sderr := p.ParseSignedDataForUpdate(req.SignedData)
+//@   letpost revealOK := hashing.IsValidModelMultihash(sd.UpdateKey, req.RevealValue) == nil
+//@   letpost liveOK := p.anchorTimeValidator.Validate(sd.AnchorFrom, effUntil(sd.AnchorFrom, sd.AnchorUntil, p.MaxOperationTimeDelta)) == nil &&
+//@        p.ValidateDelta(req.Delta) == nil && p.validateCommitment(sd.UpdateKey, req.Delta.UpdateCommitment) == nil
+//@   ensures [iff] (err == nil) == (reqOK && sderr == nil && (batch || liveOK) && revealOK)
+//@   ensures [result] err == nil ==> op != nil && op.Type == operation.TypeUpdate && op.UniqueSuffix == req.DidSuffix && op.Delta == req.Delta &&
+//@        op.SignedData == req.SignedData && op.RevealValue == req.RevealValue && op.OperationRequest == request && op.AnchorOrigin == nil
+//@   ensures [reveal] err == nil ==> p.ParseSignedDataForUpdate(op.SignedData).err == nil &&
+//@        hashing.IsValidModelMultihash(p.ParseSignedDataForUpdate(op.SignedData).sd.UpdateKey, op.RevealValue) == nil
+//@   ensures [nonnil] err == nil ==> op != nil
+//@   ensures [fresh] err == nil ==> fresh(op)
+
+//@ func (p *Parser) ParseRecoverOperation(request, batch) (op, err)
+//@   pure
+//@   requires wfParser(p)
+//@   modifies nothing
+//@   let req := jsonDecode(string(request), model.RecoverRequest)
+//@   let rerr := jsonDecodeErr(string(request), model.RecoverRequest)
+//@   letpost reqOK := rerr == nil && req.DidSuffix != "" && req.SignedData != "" && hashOK(p, req.RevealValue)
+//@   letpost sd, sderr := p.ParseSignedDataForRecover(req.SignedData)
+//@   letpost revealOK := hashing.IsValidModelMultihash(sd.RecoveryKey, req.RevealValue) == nil
+//@   letpost liveOK := p.anchorOriginValidator.Validate(sd.AnchorOrigin) == nil &&
+//@        p.anchorTimeValidator.Validate(sd.AnchorFrom, effUntil(sd.AnchorFrom, sd.AnchorUntil, p.MaxOperationTimeDelta)) == nil &&
+//@        p.ValidateDelta(req.Delta) == nil && req.Delta.UpdateCommitment != sd.RecoveryCommitment
+//@   ensures [iff] (err == nil) == (reqOK && sderr == nil && (batch || liveOK) && revealOK)
+//@   ensures [result] err == nil ==> op != nil && op.Type == operation.TypeRecover && op.UniqueSuffix == req.DidSuffix && op.Delta == req.Delta &&
+//@        op.SignedData == req.SignedData && op.RevealValue == req.RevealValue && op.OperationRequest == request && op.AnchorOrigin == sd.AnchorOrigin
+//@   ensures [reveal] err == nil ==> p.ParseSignedDataForRecover(op.SignedData).err == nil &&
+//@        hashing.IsValidModelMultihash(p.ParseSignedDataForRecover(op.SignedData).sd.RecoveryKey, op.RevealValue) == nil
+//@   ensures [nonnil] err == nil ==> op != nil
+//@   ensures [fresh] err == nil ==> fresh(op)
+
+//@ func (p *Parser) ParseDeactivateOperation(request, batch) (op, err)
+//@   pure
+//@   requires wfParser(p)
+//@   modifies nothing
+//@   let req := jsonDecode(string(request), model.DeactivateRequest)
+//@   let rerr := jsonDecodeErr(string(request), model.DeactivateRequest)
+//@   letpost reqOK := rerr == nil && req.DidSuffix != "" && req.SignedData != "" && hashOK(p, req.RevealValue)
+//@   letpost sd, sderr := p.ParseSignedDataForDeactivate(req.SignedData)
+//@   letpost revealOK := hashing.IsValidModelMultihash(sd.RecoveryKey, req.RevealValue) == nil
+//@   letpost liveOK := p.anchorTimeValidator.Validate(sd.AnchorFrom, effUntil(sd.AnchorFrom, sd.AnchorUntil, p.MaxOperationTimeDelta)) == nil
+//@   ensures [iff] (err == nil) == (reqOK && sderr == nil && sd.DidSuffix == req.DidSuffix && revealOK && (batch || liveOK))
+//@   ensures [result] err == nil ==> op != nil && op.Type == operation.TypeDeactivate && op.UniqueSuffix == req.DidSuffix && op.Delta == nil &&
+//@        op.SignedData == req.SignedData && op.RevealValue == req.RevealValue && op.OperationRequest == request && op.AnchorOrigin == nil
+//@   ensures [reveal] err == nil ==> p.ParseSignedDataForDeactivate(op.SignedData).err == nil &&
+//@        hashing.IsValidModelMultihash(p.ParseSignedDataForDeactivate(op.SignedData).sd.RecoveryKey, op.RevealValue) == nil
+//@   ensures [suffix] err == nil ==> p.ParseSignedDataForDeactivate(op.SignedData).sd.DidSuffix == op.UniqueSuffix
+//@   ensures [nonnil] err == nil ==> op != nil
+//@   ensures [fresh] err == nil ==> fresh(op)
+
+// ---------------------------------------------------------------------------
+// entry points
+
+//@ func (p *Parser) ParseOperation(namespace, operationBuffer, batch) (op, err)
+//@   requires wfParser(p)
+//@   modifies nothing
+//@   let typ := jsonDecode(string(operationBuffer), operationSchema).Operation
+//@   let terr := jsonDecodeErr(string(operationBuffer), operationSchema)
+//@   let sizeOK := len(operationBuffer) <= int(p.MaxOperationSize)
+//@   let c := p.ParseCreateOperation(operationBuffer, batch)
+//@   let u := p.ParseUpdateOperation(operationBuffer, batch)
+//@   let r := p.ParseRecoverOperation(operationBuffer, batch)
+//@   let d := p.ParseDeactivateOperation(operationBuffer, batch)
+//@   let known := typ == operation.TypeCreate || typ == operation.TypeUpdate || typ == operation.TypeRecover || typ == operation.TypeDeactivate
+//@   ensures [size] !sizeOK ==> err != nil
+//@   ensures [type] !(terr == nil && known) ==> err != nil
+//@   ensures [atomic] (err != nil ==> op == nil) && (err == nil ==> op != nil)
+//@   ensures [dispatch.create] sizeOK && terr == nil && typ == operation.TypeCreate ==> (err == nil) == (c.err == nil) && (err == nil ==> op == c.op)
+//@   ensures [dispatch.update] sizeOK && terr == nil && typ == operation.TypeUpdate ==> (err == nil) == (u.err == nil) && (err == nil ==> op == u.op)
+//@   ensures [dispatch.recover] sizeOK && terr == nil && typ == operation.TypeRecover ==> (err == nil) == (r.err == nil) && (err == nil ==> op == r.op)
+//@   ensures [dispatch.deactivate] sizeOK && terr == nil && typ == operation.TypeDeactivate ==> (err == nil) == (d.err == nil) && (err == nil ==> op == d.op)
+//@   ensures [id] err == nil ==> op.ID == namespace + ":" + op.UniqueSuffix && op.Namespace == namespace
+//@   ensures [type.result] err == nil ==> op.Type == typ
+//@   ensures [recover.signed] err == nil && typ == operation.TypeRecover ==> p.ParseSignedDataForRecover(op.SignedData).err == nil
+//@   ensures [fresh] err == nil ==> fresh(op)
+//@   ensures [fields] err == nil ==> op.Type == old(op.Type) && op.UniqueSuffix == old(op.UniqueSuffix) && op.AnchorOrigin == old(op.AnchorOrigin) &&
+//@        op.OperationRequest == old(op.OperationRequest) && op.Delta == old(op.Delta) && op.SuffixData == old(op.SuffixData) &&
+//@        op.SignedData == old(op.SignedData) && op.RevealValue == old(op.RevealValue)
+
+//@ func (p *Parser) Parse(namespace, operationBuffer) (op, err)
+//@   requires wfParser(p)
+//@   modifies nothing
+//@   let typ := jsonDecode(string(operationBuffer), operationSchema).Operation
+//@   let terr := jsonDecodeErr(string(operationBuffer), operationSchema)
+//@   let sizeOK := len(operationBuffer) <= int(p.MaxOperationSize)
+//@   let c := p.ParseCreateOperation(operationBuffer, false)
+//@   let u := p.ParseUpdateOperation(operationBuffer, false)
+//@   let r := p.ParseRecoverOperation(operationBuffer, false)
+//@   let d := p.ParseDeactivateOperation(operationBuffer, false)
+//@   let known := typ == operation.TypeCreate || typ == operation.TypeUpdate || typ == operation.TypeRecover || typ == operation.TypeDeactivate
+//@   ensures [size] !sizeOK ==> err != nil
+//@   ensures [type] !(terr == nil && known) ==> err != nil
+//@   ensures [atomic] (err != nil ==> op == nil) && (err == nil ==> op != nil)
+//@   ensures [accept.create] sizeOK && terr == nil && typ == operation.TypeCreate ==> (err == nil) == (c.err == nil)
+//@   ensures [accept.update] sizeOK && terr == nil && typ == operation.TypeUpdate ==> (err == nil) == (u.err == nil)
+//@   ensures [accept.recover] sizeOK && terr == nil && typ == operation.TypeRecover ==> (err == nil) == (r.err == nil)
+//@   ensures [accept.deactivate] sizeOK && terr == nil && typ == operation.TypeDeactivate ==> (err == nil) == (d.err == nil)
+//@   ensures [result.request] err == nil ==> op.OperationRequest == operationBuffer && op.ID == namespace + ":" + op.UniqueSuffix && op.Type == typ
+//@   ensures [result.create] err == nil && typ == operation.TypeCreate ==> op.UniqueSuffix == old(c.op.UniqueSuffix) && op.AnchorOrigin == old(c.op.AnchorOrigin)
+//@   ensures [result.update] err == nil && typ == operation.TypeUpdate ==> op.UniqueSuffix == old(u.op.UniqueSuffix) && op.AnchorOrigin == old(u.op.AnchorOrigin)
+//@   ensures [result.recover] err == nil && typ == operation.TypeRecover ==> op.UniqueSuffix == old(r.op.UniqueSuffix) && op.AnchorOrigin == old(r.op.AnchorOrigin)
+//@   ensures [result.deactivate] err == nil && typ == operation.TypeDeactivate ==> op.UniqueSuffix == old(d.op.UniqueSuffix) && op.AnchorOrigin == old(d.op.AnchorOrigin)
+
+// C04: parser-level extraction of reveal value and next commitment
+//@ func (p *Parser) GetRevealValue(opBytes) (rv, err)
+//@   requires wfParser(p)
+//@   modifies nothing
+//@   let typ := jsonDecode(string(opBytes), operationSchema).Operation
+//@   let terr := jsonDecodeErr(string(opBytes), operationSchema)
+//@   let sizeOK := len(opBytes) <= int(p.MaxOperationSize)
+//@   let u := p.ParseUpdateOperation(opBytes, true)
+//@   let r := p.ParseRecoverOperation(opBytes, true)
+//@   let d := p.ParseDeactivateOperation(opBytes, true)
+//@   ensures [create] sizeOK && terr == nil && typ == operation.TypeCreate ==> err != nil
+//@   ensures [update] sizeOK && terr == nil && typ == operation.TypeUpdate ==> (err == nil) == (u.err == nil) && (err == nil ==> rv == old(u.op.RevealValue))
+//@   ensures [recover] sizeOK && terr == nil && typ == operation.TypeRecover ==> (err == nil) == (r.err == nil) && (err == nil ==> rv == old(r.op.RevealValue))
+//@   ensures [deactivate] sizeOK && terr == nil && typ == operation.TypeDeactivate ==> (err == nil) == (d.err == nil) && (err == nil ==> rv == old(d.op.RevealValue))
+
+//@ func (p *Parser) GetCommitment(opBytes) (cm, err)
+//@   requires wfParser(p)
+//@   modifies nothing
+//@   let typ := jsonDecode(string(opBytes), operationSchema).Operation
+//@   let terr := jsonDecodeErr(string(opBytes), operationSchema)
+//@   let sizeOK := len(opBytes) <= int(p.MaxOperationSize)
+//@   let u := p.ParseUpdateOperation(opBytes, true)
+//@   let r := p.ParseRecoverOperation(opBytes, true)
+//@   let d := p.ParseDeactivateOperation(opBytes, true)
+//@   ensures [create] sizeOK && terr == nil && typ == operation.TypeCreate ==> err != nil
+//@   ensures [update] sizeOK && terr == nil && typ == operation.TypeUpdate && u.err == nil && old(u.op.Delta) != nil ==> err == nil && cm == old(u.op.Delta.UpdateCommitment)
+//@   ensures [deactivate] sizeOK && terr == nil && typ == operation.TypeDeactivate ==> (err == nil) == (d.err == nil) && (err == nil ==> cm == "")
+//@   ensures [recover] sizeOK && terr == nil && typ == operation.TypeRecover && r.err == nil ==> err == nil &&
+//@        cm == p.ParseSignedDataForRecover(old(r.op.SignedData)).sd.RecoveryCommitment
